@@ -93,8 +93,11 @@ fn run_cases(run: &Run, label: &str, n: u64, get: &(dyn Fn(u64) -> Value + Sync)
                             continue;
                         }
                         let p = v.panic_info();
-                        if v.kind == "panic" && p.is_arith_or_debug_assert() && !p.message.contains("divide by zero") && !p.message.contains("remainder with a divisor of zero") {
-                            // overflow / debug-assert class: belongs to C20 (cannot occur in the release profile)
+                        if cfg!(debug_assertions) && v.kind == "panic" && p.is_arith_or_debug_assert() && !p.message.contains("divide by zero") && !p.message.contains("remainder with a divisor of zero") {
+                            // overflow / debug-assert class: belongs to C20. Only when this binary itself is built
+                            // with debug assertions: in the release profile (overflow-checks and debug-assertions
+                            // off) such a message can only come from a release-mode `assert!` (Ord::clamp with
+                            // min > max, step_by(0), an explicit assert in the repository) and is a real panic.
                             continue;
                         }
                         run.violation(&viol_identity(v), &format!("{} (case {})", v.what, short(&narrow(case, v.sub))), narrow(case, v.sub));
@@ -105,6 +108,11 @@ fn run_cases(run: &Run, label: &str, n: u64, get: &(dyn Fn(u64) -> Value + Sync)
                     // the iftf2 families are distinct input classes: name the family in the identity
                     let id = match (driver, case["family"].as_str()) {
                         ("iftf2", Some(fam)) => failure_identity(&format!("iftf2 {fam}"), &f),
+                        // the abort known on the unchanged tree belongs to the bound usize::MAX / 2 alone: the
+                        // same symptom for any other stream / bound is a different finding
+                        ("brotli", _) if case["part"].as_u64() != Some(brotlifam::PART_HALF_MAX) => {
+                            failure_identity("brotli (output bound within the allocator limit)", &f)
+                        }
                         _ => failure_identity(driver, &f),
                     };
                     let what = format!(
@@ -197,6 +205,12 @@ fn body(run: &Run, replay: Option<&Value>) {
             if !o.iter().any(|x| x == ph.label) {
                 continue;
             }
+        }
+        if quick && ph.label == "klippa" && only.is_none() {
+            // klippa is outside C02's statement (observations, never verdicts) and C20 quick executes and judges the
+            // same phase: C02 runs it in the thorough tier only, which keeps quick inside its 60 s budget
+            run.bound("klippa.executed_in_this_tier", json!("no (thorough only; C20 quick runs and judges this phase)"));
+            continue;
         }
         run.count(&format!("{}.cases_enumerated", ph.label), ph.n);
         run_cases(run, ph.label, ph.n, &*ph.get, &SupOpts { chunk: ph.chunk, ..opts.clone() });
